@@ -242,6 +242,23 @@ theorem compress_tolerance_attained (values : List Int) (maxSize : Nat) (hmax : 
       CompressSpecAt values maxSize table m δ ∧ Attained values m δ :=
   compress_meets_spec_strong values maxSize hmax hr
 
+/-- **tfm_table_check_sound.** The checker that the correspondence runs on the dimension tables
+of the *serialised and re-read* TFM file produced from a property list (stream `tf`) is sound:
+if it accepts, the table and the indices the characters carry satisfy `CompressSpec` for the
+values that are compressed, with the **true** PLtoTF limit `tfmLimit kind` (255 widths, 15
+heights, 15 depths, 63 italic corrections — constants of the specification, from the 8/4/4/6-bit
+index fields with entry 0 reserved). -/
+theorem tfm_table_check_sound (kind : Nat) (charVals table : List Int) (idx : List (Int × Nat))
+    (h : checkTfmTable kind charVals table idx = (true, true, true, true)) :
+    CompressSpec (if kind = 0 then charVals else charVals.filter (· != 0)) (tfmLimit kind) table idx := by
+  simp only [checkTfmTable, Prod.mk.injEq] at h
+  apply checkCompress_sound
+  rw [← Prod.eta (checkCompress _ _ _ _), ← Prod.eta (checkCompress _ _ _ _).2]
+  simp only [h.1, h.2.1, h.2.2.1]
+
+example : tfmLimit 0 = 2 ^ 8 - 1 ∧ tfmLimit 1 = 2 ^ 4 - 1 ∧ tfmLimit 2 = 2 ^ 4 - 1 ∧ tfmLimit 3 = 2 ^ 6 - 1 := by
+  decide
+
 /-- **representative_optimal.** The representative the code chooses for an interval
 `first ≤ … ≤ last`, `(last + first) / 2`, is a best integer centre: for every member `v` and
 every integer `r`, `|v − rep|` is at most the distance of `r` to one of the two ends. -/
